@@ -124,7 +124,9 @@ class BaseProp:
             # cases flagged "nomodel" lie outside the model's input domain (e.g. non-integer weights):
             # they are decided by the property oracle alone
             mcases = [c for c in cases if not c.get("nomodel")]
-            n, diffs, errs = gv.correspond(self.run_module, mcases, impl, wd, self.to_coq, shards=self.shards)
+            # observation kinds 5000-5999 are oracle-only (no model counterpart)
+            impl_m = {k: [ob for ob in v if not 5000 <= ob[0] < 6000] for k, v in impl.items()}
+            n, diffs, errs = gv.correspond(self.run_module, mcases, impl_m, wd, self.to_coq, shards=self.shards)
             res["corr_errors"] += errs
             for c, d in diffs:
                 res["failing"].append((c, "implementation differs from the model: " + str(d),
@@ -374,7 +376,84 @@ class C03Prop(HistProp):
                 if len([r for r in rows if r[1] == -1]) != len(nodes):
                     msgs.append("after call %d: traversal list has %d rows for %d nodes" % (
                         step, len([r for r in rows if r[1] == -1]), len(nodes)))
+        msgs += self.consequences(c, o, nodes, edges)
         return msgs[:2]
+
+    def consequences(self, c, o, nodes, edges):
+        """C03's last sentence: distances / closeness / betweenness reported for the graph equal those
+        computed from get_all_nodes() / get_all_edges() alone (exact rationals, cheapest parallel edge)."""
+        import centgen as cg
+        from fractions import Fraction
+        qs = [op for op in c["ops"] if op[0] == "q" and str(op[1]).startswith("alg_")]
+        if not qs or nodes is None or edges is None:
+            return []
+        directed = c["spec"][0]
+        weighted = bool(qs[0][2][-1])
+        w = {}
+        for e in edges:
+            u, v, wf_, wt = e[0], e[1], e[2], e[3]
+            if weighted and wf_ != 1:
+                return []      # not an all-real history after all (cannot happen with wmode real)
+            for k in ([(u, v)] if directed else [(u, v), (v, u)]):
+                w[k] = wt if k not in w else min(w[k], wt)
+        n = len(nodes)
+        d, sig = cg.all_pairs(nodes, w, weighted)
+        idx = {x: i for i, x in enumerate(nodes)}
+        obs = [ob for ob in o if 5000 <= ob[0] < 6000]
+        msgs, at = [], 0
+        for op in qs:
+            if at >= len(obs) or obs[at][0] != 5001:
+                return ["algorithm observations missing for %s" % (op,)]
+            code = obs[at][1][0][0]
+            at += 1
+            res = None
+            if code == 0:
+                if at >= len(obs):
+                    return ["algorithm result missing for %s" % (op,)]
+                res = obs[at]
+                at += 1
+            name = op[1]
+            if name == "alg_sssp":
+                x = op[2][0]
+                if x not in idx:
+                    if code != 4:
+                        msgs.append("single_source from the absent name %d: code %d, expected NodeNotFound" % (x, code))
+                    continue
+                if code != 0:
+                    msgs.append("single_source(%d, weighted=%s) failed with code %d on non-negative weights" % (x, weighted, code))
+                    continue
+                got = {r[0]: f for r, f in zip(res[1], res[2])}
+                exp = {nodes[t]: d[idx[x]][t] for t in range(n) if d[idx[x]][t] is not None}
+                if set(got) != set(exp) or any(Fraction(got[k]) != exp[k] for k in exp):
+                    msgs.append("distances from %d reported by single_source(weighted=%s) %s differ from those computed "
+                                "from get_all_edges() alone %s" % (x, weighted, sorted(got.items()),
+                                                                   sorted((k, float(v)) for k, v in exp.items())))
+            else:
+                if code != 0:
+                    msgs.append("%s(weighted=%s) failed with code %d" % (name, weighted, code))
+                    continue
+                got = {r[0]: f for r, f in zip(res[1], res[2])}
+                exp = {}
+                for vi, v in enumerate(nodes):
+                    if name == "alg_cc":
+                        inc = [d[s][vi] for s in range(n) if d[s][vi] is not None]
+                        r_, tot = len(inc), sum(inc, Fraction(0))
+                        exp[v] = Fraction(0) if (r_ <= 1 or n <= 1) else Fraction(r_ - 1) / tot
+                    else:
+                        raw = Fraction(0)
+                        for s in range(n):
+                            for t in range(n):
+                                if s == vi or t == vi or s == t or d[s][t] is None:
+                                    continue
+                                if d[s][vi] is None or d[vi][t] is None or d[s][vi] + d[vi][t] != d[s][t]:
+                                    continue
+                                raw += Fraction(sig[s][vi] * sig[vi][t], sig[s][t])
+                        exp[v] = raw if directed else raw / 2
+                if set(got) != set(exp) or any(not cg.close(got[k], exp[k]) for k in exp):
+                    msgs.append("%s(weighted=%s) %s differs from the value computed from get_all_edges() alone %s" % (
+                        "closeness_centrality" if name == "alg_cc" else "betweenness_centrality", weighted,
+                        sorted(got.items()), sorted((k, float(v)) for k, v in exp.items())))
+        return msgs[:1]
 
 
 C03 = register(C03Prop(
@@ -745,3 +824,4 @@ C15.manifest = {
 C03.rule += ' 20% of the all-real-weight histories run with a dyadic weight scale applied inside the harness (weights x 2^k in, weight-valued observations / 2^k out, k in {-60,-3,40}; exact in binary64).'
 C09.rule += ' 20% of the all-real-weight histories run with a dyadic weight scale applied inside the harness (weights x 2^k in, weight-valued observations / 2^k out, k in {-60,-3,40}; exact in binary64).'
 C15.rule += ' 20% of the all-real-weight histories run with a dyadic weight scale applied inside the harness (weights x 2^k in, weight-valued observations / 2^k out, k in {-60,-3,40}; exact in binary64).'
+C03.rule += ' CONSEQUENCE CLAUSE: at the end of every history single_source from every name (weighted when all weights are real, hop count otherwise), closeness_centrality and betweenness_centrality are called on the graph the history produced and compared (oracle-only observations 50xx) with distances / closeness / betweenness recomputed in exact rationals from get_all_nodes() / get_all_edges() alone (cheapest parallel edge, both directions when undirected).'
